@@ -1155,10 +1155,53 @@ let run_ccheck (path : string) =
   close_in ic;
   Printf.printf "PSUMMARY checked=%d failed=%d\n" !nchk !nfail
 
+
+(* flock mode: the lock-table model of Flock.v *)
+let rec nat_of_int i = if i <= 0 then O else S (nat_of_int (i - 1))
+
+let run_flock (path : string) =
+  let ic = open_in path in
+  let t = ref ftab0 in
+  (try
+     while true do
+       let line = String.trim (input_line ic) in
+       if line = "" || line.[0] = '#' then ()
+       else begin
+         print_endline line;
+         let f = toks line in
+         let step o =
+           let (t', r) = fstep !t o in
+           t := t';
+           (match r with FOk -> "ok" | FSkip -> "skip"
+                       | FErr c -> "err " ^ (match c with
+                           | CLocked -> "Locked" | CReadonly -> "Readonly" | CIndexCorrupted -> "IndexCorrupted"
+                           | CNotExist -> "NotExist" | _ -> "Other")) in
+         (match f with
+          | "case" :: _ -> t := ftab0
+          | ["prep"; _] -> print_endline "= ok"
+          | "o" :: h :: ro :: chk :: _ ->
+            print_endline ("= " ^ step (FOpen (nat_of_int (int_of_string h), ro = "1", chk = "1")))
+          | ["c"; h] -> print_endline ("= " ^ step (FClose (nat_of_int (int_of_string h))))
+          | ["p"; h] -> print_endline ("= " ^ step (FPublish (nat_of_int (int_of_string h))))
+          | ["d"; h] -> print_endline ("= " ^ step (FDelete (nat_of_int (int_of_string h))))
+          | ["corrupt"; b] -> print_endline ("= " ^ step (FCorrupt (b = "1")))
+          | ["rmdir"; b] -> print_endline ("= " ^ step (FRmdir (b = "1")))
+          | ["q"; h] ->
+            (match fstep !t (FPublish (nat_of_int (int_of_string h))) with
+             | (_, FSkip) -> print_endline "= skip"
+             | _ -> print_endline "= ok")
+          | ["logsum"] -> print_endline "= ok"
+          | _ -> print_endline "= err UnknownOp")
+       end
+     done
+   with End_of_file -> ());
+  close_in ic
+
 let () =
   match Array.to_list Sys.argv with
   | _ :: "hist" :: path :: _ -> run_hist path
   | _ :: "check" :: path :: _ -> run_check path
   | _ :: "codec" :: path :: _ -> run_codec path
   | _ :: "ccheck" :: path :: _ -> run_ccheck path
+  | _ :: "flock" :: path :: _ -> run_flock path
   | _ -> prerr_endline "usage: kvmodel hist <file>"; exit 2
